@@ -271,3 +271,23 @@ func InnerPlaintext(p []byte) (content []byte, typ byte, zeros int, ok bool) {
 
 	return p[:i], p[i], len(p) - 1 - i, true
 }
+
+// SealCBCRaw encrypts an arbitrary block-aligned byte string (attacker-chosen plaintext, MAC and
+// padding included or not) under the CBC keys: an authenticated peer sending malformed content.
+func SealCBCRaw(k Keys12, h Hdr12, blocks, explicitIV []byte) ([]byte, error) {
+	if k.Suite.Kind != "cbc" || len(blocks)%16 != 0 || len(explicitIV) != 16 {
+		return nil, ErrFormat
+	}
+	b, err := aes.NewCipher(k.Key)
+	if err != nil {
+		return nil, err
+	}
+	data := append([]byte(nil), blocks...)
+	cipher.NewCBCEncrypter(b, explicitIV).CryptBlocks(data, data)
+	body := append(append([]byte(nil), explicitIV...), data...)
+
+	return append(h.Marshal(len(body)), body...), nil
+}
+
+// CBCMac exposes the MAC of the CBC suites for building deliberately odd records.
+func CBCMac(k Keys12, h Hdr12, plain []byte) []byte { return cbcMAC(k, h, plain) }
